@@ -291,11 +291,12 @@ fn op_c07_sweep(st: &mut State, req: &Value) -> Value {
         Err(e) => return json!({"harness_error": e}),
     };
     let threads = req["threads"].as_u64().unwrap_or(16) as usize;
-    let sw = literal::sweep_exhaustive(db, &symbols, max_len, sample_every, threads);
+    let max_exp_digits = req["max_exp_digits"].as_u64().unwrap_or(4) as usize;
+    let sw = literal::sweep_exhaustive(db, &symbols, max_len, sample_every, threads, max_exp_digits);
     json!({
         "strings": sw.strings, "well_formed": sw.well_formed, "with_percent": sw.with_percent,
         "parser_checked": sw.parser_checked, "query_checked": sw.query_checked,
-        "distinct_values": sw.distinct_values,
+        "distinct_values": sw.distinct_values, "huge_exponent_skipped": sw.huge_exponent_skipped,
         "violation_count": sw.violation_count,
         "violations": sw.violations.iter().map(|(s, e)| json!({"input": s, "what": e})).collect::<Vec<_>>(),
         "sample": sw.sample.iter().map(|(s, n, d)| json!([s, n, d])).collect::<Vec<_>>(),
